@@ -39,8 +39,10 @@ def variant(rng, p):
     elif r < 0.7:
         f = rng.choice(['dev', 'st', 'ver', 'seq', 'vid', 'fl', 'seg'])
         q[f] = (q[f] + 1) % (4 if f == 'seg' else 256)
-    elif r < 0.85 and 'pt' in q:
+    elif r < 0.8 and 'pt' in q:
         q['pt'] = (q['pt'] % 255) + 1
+    elif r < 0.9 and 'mt' in q:
+        q['mt'] = rng.choice([x for x in (1, 2, 3, 255) if x != q['mt']])     # same payload type byte, another message type
     else:
         q['ts'] = wire.rbytes(rng, 8)
     return q
@@ -89,6 +91,8 @@ def gen(seed, nepisodes, prefix='r', kind='packet'):
                 live[d] = True
                 has_payload[d] = has_payload.get(s)
                 live[s] = False
+            elif r < 0.64 and kind == 'packet' and has_payload.get(s):
+                ops.append({'op': 'selfset', 'slot': s})
             elif r < 0.75:
                 if kind == 'packet':
                     m = {'op': 'mutate', 'slot': s, 'ts': wire.rbytes(rng, 8), 'fl': rng.randrange(256)}
